@@ -6,16 +6,18 @@ EXTENDS Naturals, Integers, FiniteSets
 CONSTANTS Actor, H, Deviations
 VARIABLES hs,      \* handle: "none" | "joinable" | "done"
           body,    \* "notstarted" | "running" | "finished"
-          intReq, intEn, stopReq, cbReg, cbRan, op
-vars == <<hs, body, intReq, intEn, stopReq, cbReg, cbRan, op>>
+          intReq, intEn, stopReq, cbReg, cbRan, op,
+          rel      \* rel[h]: the owner has released the permit the body's second wait ("acq") needs
+vars == <<hs, body, intReq, intEn, stopReq, cbReg, cbRan, op, rel>>
 Idle == [kind |-> "none", h |-> 0, st |-> "idle", res |-> 0]
 Init == /\ hs = [h \in H |-> "none"] /\ body = [h \in H |-> "notstarted"]
         /\ intReq = [h \in H |-> FALSE] /\ intEn = [h \in H |-> TRUE] /\ stopReq = [h \in H |-> FALSE]
         /\ cbReg = [h \in H |-> 0] /\ cbRan = [h \in H |-> 0]
         /\ op = [a \in Actor |-> Idle]
+        /\ rel = [h \in H |-> FALSE]
 Call(a, kind, h) == /\ op[a].st = "idle"
                     /\ op' = [op EXCEPT ![a] = [kind |-> kind, h |-> h, st |-> "called", res |-> 0]]
-                    /\ UNCHANGED <<hs, body, intReq, intEn, stopReq, cbReg, cbRan>>
+                    /\ UNCHANGED <<hs, body, intReq, intEn, stopReq, cbReg, cbRan, rel>>
 Done(a, r) == op' = [op EXCEPT ![a].st = "done", ![a].res = r]
 \* join returns only after the thread function has returned and its exit callbacks ran.
 \* Deviation "JoinBeforeEarlierExitCallbacks": exit callbacks run in reverse order of registration
@@ -27,67 +29,73 @@ Lin(a) ==
     LET k == op[a].kind  h == op[a].h IN
     /\ op[a].st = "called"
     /\ \/ /\ k = "spawn" /\ hs[h] = "none" /\ hs' = [hs EXCEPT ![h] = "joinable"] /\ Done(a, 1)
-          /\ UNCHANGED <<body, intReq, intEn, stopReq, cbReg, cbRan>>
+          /\ UNCHANGED <<body, intReq, intEn, stopReq, cbReg, cbRan, rel>>
        \/ /\ k = "join" /\ hs[h] = "joinable" /\ Finished(h)
           /\ hs' = [hs EXCEPT ![h] = "done"] /\ Done(a, 1)
-          /\ UNCHANGED <<body, intReq, intEn, stopReq, cbReg, cbRan>>
+          /\ UNCHANGED <<body, intReq, intEn, stopReq, cbReg, cbRan, rel>>
        \/ /\ k = "join" /\ hs[h] # "joinable" /\ Done(a, -1)        \* reported as an error
-          /\ UNCHANGED <<hs, body, intReq, intEn, stopReq, cbReg, cbRan>>
+          /\ UNCHANGED <<hs, body, intReq, intEn, stopReq, cbReg, cbRan, rel>>
        \/ /\ k = "selfjoin" /\ Done(a, -2)                          \* joining oneself: error
-          /\ UNCHANGED <<hs, body, intReq, intEn, stopReq, cbReg, cbRan>>
+          /\ UNCHANGED <<hs, body, intReq, intEn, stopReq, cbReg, cbRan, rel>>
        \/ /\ k = "detach" /\ hs[h] = "joinable" /\ hs' = [hs EXCEPT ![h] = "done"] /\ Done(a, 1)
-          /\ UNCHANGED <<body, intReq, intEn, stopReq, cbReg, cbRan>>
+          /\ UNCHANGED <<body, intReq, intEn, stopReq, cbReg, cbRan, rel>>
        \/ /\ k = "joinable" /\ Done(a, IF hs[h] = "joinable" THEN 1 ELSE 0)
-          /\ UNCHANGED <<hs, body, intReq, intEn, stopReq, cbReg, cbRan>>
+          /\ UNCHANGED <<hs, body, intReq, intEn, stopReq, cbReg, cbRan, rel>>
        \* interrupting a thread that has interruption disabled is refused (error -4)
        \/ /\ k = "interrupt" /\ intEn[h] /\ intReq' = [intReq EXCEPT ![h] = TRUE] /\ Done(a, 1)
-          /\ UNCHANGED <<hs, body, intEn, stopReq, cbReg, cbRan>>
+          /\ UNCHANGED <<hs, body, intEn, stopReq, cbReg, cbRan, rel>>
        \/ /\ k = "interrupt" /\ ~intEn[h] /\ Done(a, -4)
-          /\ UNCHANGED <<hs, body, intReq, intEn, stopReq, cbReg, cbRan>>
+          /\ UNCHANGED <<hs, body, intReq, intEn, stopReq, cbReg, cbRan, rel>>
        \/ /\ k \in {"int_disable", "int_restore"}
           /\ intEn' = [intEn EXCEPT ![h] = (k = "int_restore")] /\ Done(a, 1)
-          /\ UNCHANGED <<hs, body, intReq, stopReq, cbReg, cbRan>>
+          /\ UNCHANGED <<hs, body, intReq, stopReq, cbReg, cbRan, rel>>
        \/ /\ k = "request_stop" /\ stopReq' = [stopReq EXCEPT ![h] = TRUE]
           /\ Done(a, IF stopReq[h] THEN 0 ELSE 1)
-          /\ UNCHANGED <<hs, body, intReq, intEn, cbReg, cbRan>>
+          /\ UNCHANGED <<hs, body, intReq, intEn, cbReg, cbRan, rel>>
        \/ /\ k = "reg_cb" /\ cbReg' = [cbReg EXCEPT ![h] = @ + 1] /\ Done(a, 1)   \* accepted
-          /\ UNCHANGED <<hs, body, intReq, intEn, stopReq, cbRan>>
+          /\ UNCHANGED <<hs, body, intReq, intEn, stopReq, cbRan, rel>>
        \/ /\ k = "reg_cb" /\ body[h] = "finished" /\ Done(a, 0)     \* refused: already exiting
-          /\ UNCHANGED <<hs, body, intReq, intEn, stopReq, cbReg, cbRan>>
+          /\ UNCHANGED <<hs, body, intReq, intEn, stopReq, cbReg, cbRan, rel>>
        \* executed by the thread body itself (its own actor): an interruption point throws iff an
        \* interruption has been requested and interruption is enabled; reading stop_requested
        \* a blocking wait that nobody but an interruption ends: it is an interruption point, so it returns
        \* (by throwing) once an interruption has been requested and interruption is enabled
        \/ /\ k = "block" /\ intReq[h] /\ intEn[h] /\ Done(a, 1)
+          /\ UNCHANGED <<hs, body, intReq, intEn, stopReq, cbReg, cbRan, rel>>
+       \* the owner releases the permit the body's second wait needs; that wait returns only then
+       \/ /\ k = "release" /\ rel' = [rel EXCEPT ![h] = TRUE] /\ Done(a, 1)
           /\ UNCHANGED <<hs, body, intReq, intEn, stopReq, cbReg, cbRan>>
+       \/ /\ k = "acq" /\ rel[h] /\ Done(a, 1)
+          /\ UNCHANGED <<hs, body, intReq, intEn, stopReq, cbReg, cbRan, rel>>
        \/ /\ k = "ipoint" /\ Done(a, IF intReq[h] /\ intEn[h] THEN 1 ELSE 0)
-          /\ UNCHANGED <<hs, body, intReq, intEn, stopReq, cbReg, cbRan>>
+          /\ UNCHANGED <<hs, body, intReq, intEn, stopReq, cbReg, cbRan, rel>>
        \/ /\ k = "stop_seen" /\ Done(a, IF stopReq[h] THEN 1 ELSE 0)
-          /\ UNCHANGED <<hs, body, intReq, intEn, stopReq, cbReg, cbRan>>
+          /\ UNCHANGED <<hs, body, intReq, intEn, stopReq, cbReg, cbRan, rel>>
        \* ~jthread: request stop, then join
        \/ /\ k = "destroy_j" /\ hs[h] = "joinable" /\ ~stopReq[h]
           /\ stopReq' = [stopReq EXCEPT ![h] = TRUE]
-          /\ UNCHANGED <<hs, body, intReq, intEn, cbReg, cbRan, op>>
+          /\ UNCHANGED <<hs, body, intReq, intEn, cbReg, cbRan, op, rel>>
        \/ /\ k = "destroy_j" /\ hs[h] = "joinable" /\ stopReq[h] /\ Finished(h)
           /\ hs' = [hs EXCEPT ![h] = "done"] /\ Done(a, 1)
-          /\ UNCHANGED <<body, intReq, intEn, stopReq, cbReg, cbRan>>
+          /\ UNCHANGED <<body, intReq, intEn, stopReq, cbReg, cbRan, rel>>
        \/ /\ k = "destroy_j" /\ hs[h] # "joinable" /\ Done(a, 1)
-          /\ UNCHANGED <<hs, body, intReq, intEn, stopReq, cbReg, cbRan>>
+          /\ UNCHANGED <<hs, body, intReq, intEn, stopReq, cbReg, cbRan, rel>>
 Ret(a, r) == /\ op[a].st = "done" /\ op[a].res = r /\ op' = [op EXCEPT ![a] = Idle]
-             /\ UNCHANGED <<hs, body, intReq, intEn, stopReq, cbReg, cbRan>>
+             /\ UNCHANGED <<hs, body, intReq, intEn, stopReq, cbReg, cbRan, rel>>
 
 (* body events *)
 BodyBegin(h) == /\ body[h] = "notstarted" /\ body' = [body EXCEPT ![h] = "running"]
                 /\ (hs[h] # "none" \/ \E a \in Actor : (op[a].kind = "spawn" /\ op[a].h = h))
-                /\ UNCHANGED <<hs, intReq, intEn, stopReq, cbReg, cbRan, op>>
+                /\ UNCHANGED <<hs, intReq, intEn, stopReq, cbReg, cbRan, op, rel>>
 BodyEnd(h) == /\ body[h] = "running" /\ body' = [body EXCEPT ![h] = "finished"]
-              /\ UNCHANGED <<hs, intReq, intEn, stopReq, cbReg, cbRan, op>>
+              /\ UNCHANGED <<hs, intReq, intEn, stopReq, cbReg, cbRan, op, rel>>
 ExitCb(h) == /\ body[h] = "finished" /\ cbRan[h] < cbReg[h]
              /\ cbRan' = [cbRan EXCEPT ![h] = @ + 1]
-             /\ UNCHANGED <<hs, body, intReq, intEn, stopReq, cbReg, op>>
+             /\ UNCHANGED <<hs, body, intReq, intEn, stopReq, cbReg, op, rel>>
 
 Obligation(a) ==
-    \/ op[a].st = "called" /\ op[a].kind \notin {"join", "destroy_j", "block"}
+    \/ op[a].st = "called" /\ op[a].kind \notin {"join", "destroy_j", "block", "acq"}
+    \/ op[a].st = "called" /\ op[a].kind = "acq" /\ rel[op[a].h]
     \/ op[a].st = "called" /\ op[a].kind = "block" /\ intReq[op[a].h] /\ intEn[op[a].h]
     \/ op[a].st = "called" /\ op[a].kind = "join" /\ (hs[op[a].h] # "joinable" \/ Finished(op[a].h))
     \/ op[a].st = "called" /\ op[a].kind = "destroy_j"
